@@ -77,6 +77,10 @@ def expected_slices(plain):
 def do_case(ctx, case):
     """one operation on one individual, or {"kind": "twins", "members": [case, ...]}: several such cases run
     consecutively in this one process (hash-collision twins: values -1.0 / -2.0 / int -1, 0.0 / -0.0)"""
+    if case["kind"] == "huge":
+        return do_huge_case(ctx, case)
+    if case["kind"] == "forms":
+        return do_forms_case(ctx, case)
     if case["kind"] == "twins":
         ctx.tally(f"twins:{case.get('how', '?')}")
         before, out = len(ctx.violations), []
@@ -88,6 +92,120 @@ def do_case(ctx, case):
             v["case"] = case
         return out
     return do_single_case(ctx, case)
+
+
+def huge_individual(case):
+    """deterministic from the case: n qubits, n_layers layers (mostly all-rotation layers, every 7th a layer of
+    controlled pairs, every 11th parameterless), values j/1024 - small replay files for tens of thousands of values"""
+    n, L = case["n"], case["n_layers"]
+    layers = []
+    for j in range(L):
+        if j % 11 == 5:
+            layers.append({"n": n, "gates": [["I", q] for q in range(n)]})
+        elif j % 7 == 3:
+            gates = []
+            for q in range(0, n - 1, 2):
+                gates += [["CR", q, q + 1], ["C", q + 1, q]]
+            if n % 2:
+                gates.append(["R", n - 1])
+            layers.append({"n": n, "gates": gates})
+        else:
+            layers.append({"n": n, "gates": [["R", q] for q in range(n)]})
+    total = sum(evqe.layer_n_parameters(l) for l in layers)
+    return {"n": n, "layers": layers, "values": [j / 1024 for j in range(total)]}
+
+
+def do_huge_case(ctx, case):
+    """'many parameters': an individual whose flat value tuple is longer than 2^15 (2^16) entries; structural checks
+    only (slices, change-one, change-all, remove, append) against the slices cut out by the layers' parameter counts.
+    No model comparison: the Gallina literal would hold tens of thousands of values twice."""
+    from queasars.minimum_eigensolvers.evqe.evolutionary_algorithm.individual import EVQEIndividual
+
+    hexes = lambda vs: [float(v) for v in vs]  # plain float comparison here (no NaN, no signed zero): tens of thousands of values
+    ind = huge_individual(case)
+    counts = [evqe.layer_n_parameters(l) for l in ind["layers"]]
+    offs = [0]
+    for c in counts:
+        offs.append(offs[-1] + c)
+    L, total = len(counts), offs[-1]
+    ctx.tally(f"huge:values>{2**15 if total <= 2**16 else 2**16}")
+    first_beyond = lambda lim: next((j for j in range(L) if offs[j + 1] > lim), L - 1)
+    probes = sorted({0, 1, L // 2, L - 2, L - 1} | {j + d for lim in (2**15 - 1, 2**16 - 1) if total > lim for j in [first_beyond(lim)] for d in (-1, 0, 1, 2) if 0 <= j + d < L})
+    res = call(lambda: evqe.impl_individual(ind))
+    if res[0] != "ok":
+        ctx.violation("oracle", f"huge-constructor-{res[1]}", f"a valid individual with {total} parameter values ({case['n']} qubits x {L} layers) is rejected: {res[1]}: {res[2]}", case)
+        return None
+    o = res[1]
+    want = lambda j, vals=ind["values"]: hexes(vals[offs[j] : offs[j + 1]])
+    for j in probes:
+        got = call(lambda: o.get_layer_parameter_values(j))
+        if got[0] != "ok" or hexes(got[1]) != want(j):
+            ctx.violation("oracle", "huge-get-layer", f"get_layer_parameter_values({j}) of an individual with {total} values: {'raised ' + got[1] if got[0] != 'ok' else f'{len(got[1])} values instead of the {counts[j]} of the layer (offset {offs[j]})'}", case)
+            break
+    for j in probes + [-1, -2]:
+        k = j % L
+        new = [1000.0 + i for i in range(counts[k])]
+        r = call(lambda: EVQEIndividual.change_layer_parameter_values(o, j, tuple(new)))
+        exp = ind["values"][: offs[k]] + new + ind["values"][offs[k + 1] :]
+        if r[0] != "ok" or hexes(r[1].parameter_values) != hexes(exp) or r[1].layers != o.layers:
+            ctx.violation("oracle", f"huge-change-layer{'-raises-' + r[1] if r[0] != 'ok' else ''}", f"change_layer_parameter_values(layer_id={j}, {counts[k]} values) on an individual with {total} values (layer offset {offs[k]}): "
+                          f"{'raised ' + r[1] + ': ' + r[2] if r[0] != 'ok' else 'the result is not the old tuple with exactly that slice replaced'}", case)
+            break
+        wrong = call(lambda: EVQEIndividual.change_layer_parameter_values(o, j, tuple(new) + (1.0,)))
+        if wrong[0] != "exc" or wrong[1] != EXC:
+            ctx.violation("oracle", "huge-change-layer-count", f"change_layer_parameter_values(layer_id={j}) with one value too many must raise {EXC}, got {wrong[:2]}", case)
+            break
+    allnew = [float(i % 977) for i in range(total)]
+    r = call(lambda: EVQEIndividual.change_parameter_values(o, tuple(allnew)))
+    if r[0] != "ok" or hexes(r[1].parameter_values) != hexes(allnew) or (r[0] == "ok" and hexes(r[1].get_layer_parameter_values(L - 1)) != hexes(allnew[offs[L - 1] :])):
+        ctx.violation("oracle", "huge-change-all", f"change_parameter_values with {total} values: {r[:2] if r[0] != 'ok' else 'wrong values / last layer slice'}", case)
+    for k in (1, 3):
+        r = call(lambda: EVQEIndividual.remove_layers(o, k))
+        if r[0] != "ok" or hexes(r[1].parameter_values) != hexes(ind["values"][: offs[L - k]]) or len(r[1].layers) != L - k or hexes(r[1].get_layer_parameter_values(-1)) != want(L - k - 1):
+            ctx.violation("oracle", "huge-remove", f"remove_layers({k}) of an individual with {total} values: {r[:2] if r[0] != 'ok' else 'does not keep exactly the values of the remaining layers'}", case)
+            break
+    r = call(lambda: EVQEIndividual.add_random_layers(o, 1, False, case.get("seed", 1)))
+    if r[0] != "ok" or hexes(r[1].parameter_values[:total]) != hexes(ind["values"]) or r[1].layers[:L] != o.layers or any(v != 0 for v in r[1].parameter_values[total:]):
+        ctx.violation("oracle", "huge-append", f"add_random_layers(1) on an individual with {total} values: {r[:2] if r[0] != 'ok' else 'prefix not kept / new values not 0'}", case)
+    elif hexes(r[1].get_layer_parameter_values(L)) != hexes(r[1].parameter_values[total:]) or not same_ind(EVQEIndividual.remove_layers(r[1], 1), o):
+        ctx.violation("oracle", "huge-append-slices", "after add_random_layers(1): the new layer's slice is not the appended values, or remove_layers(1) does not give the individual back", case)
+    return None
+
+
+def do_forms_case(ctx, case):
+    """Argument forms of the VALUES arguments.  On /repo HEAD change_layer_parameter_values accepts any sized sequence
+    (tuple, list, numpy array, tuple of numpy.float64, range, deque) and returns an individual with a clean tuple;
+    change_parameter_values keeps the object it is given, so only tuples (also of numpy.float64) are legal there.
+    Every legal form must give the same individual as the plain tuple form; an exception is a violation."""
+    import collections
+
+    import numpy as np
+    from queasars.minimum_eigensolvers.evqe.evolutionary_algorithm.individual import EVQEIndividual
+
+    base = case["base"]
+    ind = base["ind"]
+    o = evqe.impl_individual(ind)
+    vs = base["vs"]
+    forms = {"list": list(vs), "ndarray": np.array(vs, dtype=float), "tuple_float64": tuple(np.float64(v) for v in vs), "deque": collections.deque(vs)}
+    if base["kind"] == "change_all":
+        forms = {"tuple_float64": forms["tuple_float64"]}
+        op = lambda v: EVQEIndividual.change_parameter_values(o, v)
+        what = "change_parameter_values"
+    else:
+        op = lambda v: EVQEIndividual.change_layer_parameter_values(o, base["layer_id"], v)
+        what = f"change_layer_parameter_values(layer_id={base['layer_id']})"
+    ref = call(lambda: op(tuple(vs)))
+    for name, v in forms.items():
+        ctx.tally(f"forms:{base['kind']}:{name}")
+        got = call(lambda: op(v))
+        if ref[0] == "ok":
+            if got[0] != "ok":
+                ctx.violation("oracle", f"values-as-{name}-raises-{got[1]}", f"{what} with the values given as {name} raised {got[1]}: {got[2]} (the tuple form succeeds)", case)
+            elif not isinstance(got[1].parameter_values, tuple) or not same_ind(got[1], ref[1]):
+                ctx.violation("oracle", f"values-as-{name}-differs", f"{what} with the values given as {name} gives another individual than the tuple form", case)
+        elif got[0] != "exc" or got[1] != ref[1]:
+            ctx.violation("oracle", f"values-as-{name}-error-differs", f"{what} with a wrong number of values given as {name}: {got[:2]} instead of {ref[:2]}", case)
+    return do_single_case(ctx, base)
 
 
 def do_single_case(ctx, case):
@@ -300,6 +418,13 @@ def gen_very_deep_change(rng, target):
     return {"kind": "change_layer", "ind": {"n": 1, "layers": layers, "values": values}, "layer_id": lid, "vs": [100.5 + j for j in range(evqe.layer_n_parameters(layers[lid % L]))]}
 
 
+def gen_forms_case(rng):
+    while True:
+        c = gen_case(rng)
+        if c["kind"] in ("change_layer", "change_all"):
+            return {"kind": "forms", "base": c}
+
+
 def gen_typed_change(rng, k_type):
     while True:
         c = gen_case(rng)
@@ -366,7 +491,7 @@ def run(ctx):
     translate.check_link(ctx, "C16")
     ctx.rule = ("random valid individuals (1-6 qubits, 1-6 layers, 30% parameterless layers, a quarter from the implementation's own random_individual) x one operation: "
                 "remove_layers k in [-1, L+1]; change_parameter_values with the right count or off by 1/3; change_layer_parameter_values with layer ids in [-2L, 2L) and right/wrong counts (+ the getter); "
-                "add_random_layers with n_layers in {-1,0,1..4}, zero or random initialisation, followed by remove_layers of the same count; very deep individuals (1 qubit, 258-300 layers) x change_layer_parameter_values aimed at layers 255..258 / last / negative ids; layer ids given as numpy.int64 / intp / int32 / an int subclass; deep individuals (1-3 qubits, 8-12 layers, and ~100 layers on 1 qubit, non-zero values) x zero-initialised append of 1-4 layers / removal, unitary compared before/after (depth crosses 10 and 100); values include -1.0 / -2.0 (equal hash); hash-collision twins: the same operation on 2-3 individuals / value vectors identical except for -1.0 / -2.0 / int -1 or 0.0 / -0.0, consecutively in one process; distinct = distinct (individual, operation, arguments); all cases non-trivial")
+                "add_random_layers with n_layers in {-1,0,1..4}, zero or random initialisation, followed by remove_layers of the same count; argument forms of the values arguments (list / numpy array / tuple of numpy.float64 / deque where HEAD accepts them) must give the same individual as the tuple form; one 'many parameters' individual (64 qubits x 260 layers, > 2^15 values; thorough also > 2^16) with structural checks only; very deep individuals (1 qubit, 258-300 layers) x change_layer_parameter_values aimed at layers 255..258 / last / negative ids; layer ids given as numpy.int64 / intp / int32 / an int subclass; deep individuals (1-3 qubits, 8-12 layers, and ~100 layers on 1 qubit, non-zero values) x zero-initialised append of 1-4 layers / removal, unitary compared before/after (depth crosses 10 and 100); values include -1.0 / -2.0 (equal hash); hash-collision twins: the same operation on 2-3 individuals / value vectors identical except for -1.0 / -2.0 / int -1 or 0.0 / -0.0, consecutively in one process; distinct = distinct (individual, operation, arguments); all cases non-trivial")
     if not rnglog.selftest():
         ctx.violation("correspondence", "rnglog-selftest", "the logging Random does not reproduce random.Random on this interpreter (vlib/rnglog.py)")
     cases = []
@@ -382,6 +507,12 @@ def run(ctx):
     for k_type in ("int64", "intp", "int32", "intsub"):
         for _ in range(ctx.n(12, 100)):
             cases.append(gen_typed_change(ctx.rng, k_type))
+    for _ in range(ctx.n(60, 600)):
+        cases.append(gen_forms_case(ctx.rng))
+    huge = [{"kind": "huge", "n": 64, "n_layers": 260, "seed": 3}] if ctx.quick else [{"kind": "huge", "n": 64, "n_layers": 260, "seed": 3}, {"kind": "huge", "n": 33, "n_layers": 400, "seed": 4},
+                                                                                   {"kind": "huge", "n": 64, "n_layers": 400, "seed": 5}, {"kind": "huge", "n": 100, "n_layers": 300, "seed": 6}]
+    cases += huge
+    ctx.notes["many_parameters"] = f"{len(huge)} individual(s) with more than 2^15 (thorough: also 2^16) parameter values: structural checks on the implementation only, no model comparison (the Gallina literal would hold the value tuple several times)"
     for _ in range(ctx.n(40, 400)):
         cases.append(gen_deep_case(ctx.rng))
     for L in ((99, 100) if ctx.quick else (98, 99, 100, 101)):
